@@ -67,6 +67,10 @@ class State:
         for c in conjuncts(f):
             if not is_heavy(c):
                 self.solver.add(c)
+            else:
+                g = self.abstract(c)
+                if g is not None:
+                    self.solver.add(g)
 
     def sat(self, extra=None):
         self.n_solver_calls += 1
@@ -79,8 +83,38 @@ class State:
     def feasible(self, f):
         """True unless pc ∧ f is *proved* unsatisfiable (unknown counts as feasible: sound)."""
         if is_heavy(f):
-            return True
+            g = self.abstract(f)
+            if g is None:
+                return True
+            return self.sat(g) != z3.unsat
         return self.sat(f) != z3.unsat
+
+    def abstract(self, f):
+        """propositional abstraction of a heavy (nonlinear) condition for the light solver: every nonlinear atom becomes a boolean
+        proxy (one per syntactically equal atom), the boolean structure is kept.  An over-approximation (the proxies know no
+        arithmetic), so no feasible path is lost; it only stops the same atom from being decided twice in different ways.
+        Quantified facts are not abstracted (None)."""
+        if has_quantifier(f):
+            return None
+        if not hasattr(self, "_proxies"):
+            self._proxies = {}
+            self._proxy_keep = []
+
+        def rec(e):
+            if not is_heavy(e):
+                return e
+            if z3.is_app(e) and e.sort() == z3.BoolSort():
+                k = e.decl().kind()
+                if k in (z3.Z3_OP_AND, z3.Z3_OP_OR, z3.Z3_OP_NOT, z3.Z3_OP_IMPLIES) or (k in (z3.Z3_OP_EQ, z3.Z3_OP_ITE, z3.Z3_OP_XOR) and all(c.sort() == z3.BoolSort() for c in e.children())):
+                    return e.decl()(*[rec(c) for c in e.children()])
+            i = e.get_id()
+            p_ = self._proxies.get(i)
+            if p_ is None:
+                p_ = z3.Bool(f"heavy!{len(self._proxies)}")
+                self._proxies[i] = p_
+                self._proxy_keep.append(e)       # keeps the term alive so that its id is not reused
+            return p_
+        return rec(f)
 
     def must(self, f):
         """pc ⇒ f proved now (used only for optimisation / model decisions, never for verdicts)."""
@@ -118,6 +152,10 @@ class State:
         self.pc.append(c)
         if not is_heavy(c):
             self.solver.add(c)
+        else:
+            g = self.abstract(c)
+            if g is not None:
+                self.solver.add(g)
         if what:
             self.branch_log.append(f"{what}={d}")
         return d
